@@ -173,7 +173,7 @@ type Ctx struct {
 func NewCtx(in io.Reader, out io.Writer) *Ctx {
 	sc := bufio.NewScanner(in)
 	sc.Buffer(make([]byte, 1<<20), 1<<28)
-	return &Ctx{in: sc, out: bufio.NewWriterSize(out, 1<<16), St: Stats{Hist: map[string]int{}}, scenario: -1, seen: map[string]bool{}}
+	return &Ctx{in: sc, out: bufio.NewWriterSize(out, 1<<16), St: Stats{Hist: map[string]int{}, Findings: []Finding{}}, scenario: -1, seen: map[string]bool{}}
 }
 
 // Next returns the next op; ok=false at end of input. A "reset" verb starts a new scenario.
